@@ -1,4 +1,5 @@
 import Ptn.C09.Model
+import Ptn.C09.EnvProps
 import Ptn.Common.AnalysisLocal
 import Ptn.Common.AnalysisProj
 /-! Property theorems for C09 (BUG): recursion order — children before parents, every node once,
